@@ -353,5 +353,8 @@ def transfer_col_references(table, ref_source):
         uuid_map={uid: ref_source._cache.name_to_uuid[name] for uid, name in table._cache.uuid_to_name.items()},
     )
     new._cache = table._cache.update(new._ast)
+    # The result carries the column identities of `ref_source`, so for the purpose of join
+    # validation it is derived from it (joining the two needs an `alias()` on one side).
+    new._cache.derived_from = new._cache.derived_from | ref_source._cache.derived_from
 
     return new
